@@ -50,12 +50,31 @@ class Obligation:
         return d
 
 
+CURRENT = [None]          # the report of the running check (for the top-level handler of the command line)
+
+
+def raised_by_the_code_under_test(e):
+    """'file:line in function' when the INNERMOST frame of the exception's traceback is code of the repository under test (or the
+    outsourcer code builder driven by it) and no frame of a sidecar contract lies below it; else None"""
+    import traceback
+    tb = traceback.extract_tb(e.__traceback__)
+    if not tb:
+        return None
+    repo = os.path.realpath(paths.REPO) + os.sep
+    last = tb[-1]
+    fn = os.path.realpath(last.filename)
+    if fn.startswith(repo) or (os.sep + 'outsourcer' + os.sep in fn and any(os.path.realpath(f.filename).startswith(repo) for f in tb)):
+        return f'{os.path.relpath(fn, repo) if fn.startswith(repo) else fn}:{last.lineno} in {last.name}'
+    return None
+
+
 class Report:
     def __init__(self, prop, tier, seed, level='proof'):
         self.prop, self.tier, self.seed, self.level = prop, tier, seed, level
         self.t0 = time.time()
         self.obls = []
         self.units = {}             # unit -> {'vcs': n, 'paths': n, 'wall': s}
+        CURRENT[0] = self
         self.errors = []            # (unit, kind, message)   -> undecided / fault
         self.bounded = []           # bounded stand-ins: dicts, never counted as proved
         self.unit_bounded = {}      # unit -> {'tried', 'bound', 'violations'} for units whose bounded stand-in ran
